@@ -231,8 +231,8 @@ def _read_concat(grp) -> dict:
     return out
 
 
-def read(src) -> dict:
-    """Read a whole geoh5 file into plain Python data."""
+def read(src, kinds=KINDS, types: bool = True) -> dict:
+    """Read a whole geoh5 file into plain Python data (or only some flat containers: a cheaper view for per-event checks)."""
     with _opened(src) as h5:
         raw = {"projects": list(h5.keys()), "project": None}
         if len(raw["projects"]) != 1:
@@ -249,7 +249,7 @@ def read(src) -> dict:
         for name in proj.keys():
             link = proj.get(name, getlink=True)
             raw["top"][name] = type(link).__name__
-        for kind in KINDS:
+        for kind in kinds:
             if kind not in proj or not isinstance(proj.get(kind, getlink=True), h5py.HardLink) or not isinstance(proj[kind], h5py.Group):
                 raw["missing"].append(kind)
                 continue
@@ -263,7 +263,9 @@ def read(src) -> dict:
                     raw["flat"][kind][name] = {"nongroup": True}
                     continue
                 raw["flat"][kind][name] = _read_node(item, kind)
-        if "Types" not in proj or not isinstance(proj["Types"], h5py.Group):
+        if not types:
+            pass
+        elif "Types" not in proj or not isinstance(proj["Types"], h5py.Group):
             raw["missing"].append("Types")
         else:
             for tkind in TYPE_KINDS:
